@@ -257,7 +257,16 @@ func executePlan(prop, tier string, seed uint64, plan *Plan, nproc int, t0 time.
 
 	// process deaths first (crash / wedge / data race)
 	for _, d := range agg.deaths {
-		fv, confirmed, err := confirmDeath(bins, d, prop)
+		var fv FoundViolation
+		var confirmed bool
+		var err error
+		if ev, ok := selfEvident(prop, d.death); ok && ev.V.Rule == "M-race" {
+			// a race report needs no second opinion (and re-running a -race batch is slow)
+			ev.Seed = d.job.Seed
+			fv, confirmed = ev, true
+		} else {
+			fv, confirmed, err = confirmDeath(bins, d, prop)
+		}
 		if err != nil {
 			return 2, err
 		}
